@@ -2161,9 +2161,12 @@ class C11(Check):
         text="Frame argument in Lean (Model/Frame.lean, Props/C11.lean) over slot tables regenerated from the current source on every "
         "run (Gen/FrameC11.lean: what control actions and the simulator code paths can assign, what to_dict reads, what "
         "reset_initial_values re-assigns): a run is any sequence of writes inside `written`, so to_dict is invariant when "
-        "written and toDictReads are disjoint, and run/reset/run reproduces when every written slot is re-assigned or run-initialised. "
+        "written and toDictReads are disjoint, and run/reset/run reproduces when every written slot is re-assigned or run-initialised. The full statements are "
+        "FALSE of the code (run_preserves_definition_counterexample, reset_restores_initial_counterexample: a base_speed control action writes a slot to_dict reads "
+        "and reset does not restore); the theorems proved for every write sequence are the _partial ones excluding exactly the slots `definition_overlap` / "
+        "`reset_missing_that_matters` decide on the regenerated tables (run_preserves_definition_partial, reset_restores_initial_partial, rerun_deterministic_partial). "
         "The real simulators are run on generated models (controls on status / setting / base_speed, rules, leaks, PDD): to_dict deep "
-        "equality before/after WNTRSimulator and EpanetSimulator, exact reproduction of every results table over run/reset/run cycles, "
+        "equality before/after WNTRSimulator and EpanetSimulator, reproduction of every results table over run/reset/run cycles (continuous tables at 1e-9 relative, statuses / time index / error codes exact), "
         "deepcopy and JSON-reloaded models, and every attribute write observed at run time must be inside the generated `written` table.",
         design_ref="DESIGN.md §5 C11",
         note="the completeness of the generated tables (every assignment a run performs is in `written`) is CHECKED by the run-time write "
@@ -2177,7 +2180,7 @@ class C11(Check):
         technique="Lean 4 frame theorems over translator-regenerated read/write tables + run-time write trace + differential reruns on the implementation",
     )
     rule = ("obligations: theorems of Props/C11.lean over Gen/FrameC11.lean. correspondence cases: one per generated model (directed "
-            "scenarios + seeded random networks with controls); per model: to_dict before/after both simulators, run/reset/run (exact), third "
+            "scenarios + seeded random networks with controls); per model: to_dict before/after both simulators, run/reset/run (1e-9 relative, statuses exact), third "
             "cycle, deepcopy, JSON reload, write trace within `written`, fresh/reset/run+reset state dumps. distinct = distinct (network "
             "signature, feature set); non-trivial = the model has at least one control, rule or leak")
     trusted_base = ["translator harness/props/c11.py (ast of the simulator code paths / controls / reset_initial_values, reflection of to_dict on a zoo model)",
